@@ -52,6 +52,7 @@ def plan(tier, seed):
     sh.append(['errors'])
     for i in range(6):
         sh.append(['xord', i])
+    sh.append(['dynnames'])
     if tier == 'thorough':
         perms = list(itertools.permutations(range(4)))
         ois = sorted(set([0, 23, seed % 24, (seed * 7 + 5) % 24]))
@@ -216,6 +217,34 @@ def run_shard(shard, tier, seed, acc):
         acc.sample({'history': 'all menu pairs x {&,|,^} under %r, then under each other ordering, then '
                                'again under %r' % (o1, o1)})
         return
+    if kind == 'dynnames':
+        # variable names that are equal to, but not the same string objects as, the node labels
+        base = ['v%d' % i for i in (1, 2, 3)]
+        tt = TT(base)
+        for order in itertools.permutations(base):
+            order = list(order)
+            fn = dict((t, OBDD(tt.dnf(t), list(order))) for t in tt.all_functions())
+            for ta in list(tt.all_functions())[::5]:
+                a = fn[ta]
+                for i, v in enumerate(base):
+                    for b in (0, 1):
+                        fresh = ''.join(['v', str(i + 1)])          # a new str object each time
+                        assert fresh == v
+                        r = call(a.restrict, fresh, b)
+                        want = tt.cofactor(ta, v, b)
+                        acc.ev(1, 1 if (any(want) and not all(want)) else 0)
+                        c2 = {'vars': base, 'order': order, 'f': [int(x) for x in ta], 'v': v, 'b': repr(b),
+                              'dynamic_name': True}
+                        if r[0] != 'ok':
+                            acc.violation('restrict-exception', c2, None, r[1:])
+                        else:
+                            check_obdd(tt, r[1], order, want, acc, c2, 'restrict', fn)
+                # the same function parsed with a freshly built ordering list must be the same diagram
+                o2 = OBDD(tt.dnf(ta), [''.join(list(x)) for x in order])
+                if o2.root is not a.root or not (o2 == a):
+                    acc.violation('parse-not-canonical', {'vars': base, 'order': order, 'f': [int(x) for x in ta],
+                                                          'dynamic_name': True}, 'shared root', 'distinct root')
+        return
     if kind == 'errors':
         orders = [list(p) for k in (1, 2, 3) for p in itertools.permutations(V3, k)]
         for o1 in orders:
@@ -267,6 +296,9 @@ def replay(art):
         of = [o for o in OPS if o[0] == c['op']][0][2]
         r = call(of, x, y)
         return {'violates': not (r[0] == 'exc' and r[1] == 'RuntimeError'), 'got': r[:2]}
+    if c.get('dynamic_name'):
+        run_shard(['dynnames'], 'quick', 0, acc)
+        return {'violates': acc.d['nviol'] > 0, 'detail': acc.d['violations'][:1]}
     V = c['vars']
     tt = TT(V)
     order = c['order']
